@@ -104,6 +104,7 @@ type FuncContract struct {
 	NoSafety    bool
 	AllowPanic  Expr
 	MapAccess   []*Clause // must hold at every map read/write in the function
+	GlobalAccess map[string][]*Clause // package-level variable -> must hold at every load/store of it (or of a field of it)
 	At          map[string][]*Clause // kind (append, return, go) -> must hold at every such instruction
 	AtSets      map[string][]GhostSet // kind[#k] -> ghost updates at such instructions
 	AllocBound  Expr
@@ -504,7 +505,7 @@ func (p *parser) parsePrimary() Expr {
 
 var clauseKeywords = map[string]bool{
 	"func": true, "extern": true, "ensures_trusted": true, "props": true, "requires": true, "ensures": true, "modifies": true,
-	"pure": true, "functional": true, "foreignfuncs": true, "fresh": true, "trusted": true, "loop": true, "call": true, "allowpanic": true, "mapaccess": true, "at": true, "forbid": true, "allocbound": true, "set": true,
+	"pure": true, "functional": true, "foreignfuncs": true, "fresh": true, "trusted": true, "loop": true, "call": true, "allowpanic": true, "mapaccess": true, "globalaccess": true, "at": true, "forbid": true, "allocbound": true, "set": true,
 	"pred": true, "fn": true, "axiom": true, "lemma": true, "ghost": true, "abstract": true, "smtdef": true,
 	"mode": true, "inline": true, "nosafety": true, "replay": true, "const": true, "package": true,
 }
@@ -642,6 +643,20 @@ func parseSpecFile(path string) (*SpecFile, error) {
 				return nil, fail(c, "%v", err)
 			}
 			cur.AllowPanic = e
+		case "globalaccess":
+			// globalaccess NAME requires label: E
+			f := strings.Fields(c.rest)
+			if len(f) < 3 || f[1] != "requires" {
+				return nil, fail(c, "globalaccess NAME requires ... expected")
+			}
+			cl, err := parseClause(strings.TrimSpace(strings.TrimPrefix(strings.TrimSpace(strings.TrimPrefix(c.rest, f[0])), "requires")))
+			if err != nil {
+				return nil, fail(c, "%v", err)
+			}
+			if cur.GlobalAccess == nil {
+				cur.GlobalAccess = map[string][]*Clause{}
+			}
+			cur.GlobalAccess[f[0]] = append(cur.GlobalAccess[f[0]], cl)
 		case "mapaccess":
 			// mapaccess requires label: E
 			cl, err := parseClause(strings.TrimSpace(strings.TrimPrefix(c.rest, "requires")))
